@@ -93,11 +93,16 @@ def rewrite(text, fmt, rnd):
                 # a well-formed earlier value of the same kind (the Yukawa type MINPAR[24] must be an integer 1..6)
                 dupval = str(rnd.randrange(1, 7)) if (name == "MINPAR" and t[0] == "24") else "%.17g" % rnd.uniform(-1000, 1000)
                 lines.append("  " + "  ".join(t[:nkey]) + "   " + dupval + "   # overwritten below")
-        # unknown key
-        if not ismat and rnd.random() < 0.4 and name != "GM2CALCCONFIG":
-            lines.append("   %d   %s   # unknown key" % (rnd.choice([77, 9999, 123456]), "%.17g" % rnd.uniform(-10, 10)))
+        # unknown key: far from the documented ones or next to them (0, small integers), anywhere in the block - also after the documented entries.
+        # (whether a key is undocumented for this block and format is decided by the reader model: run() discards a rewrite whose predicted parameters differ)
+        extra = []
+        if not ismat and rnd.random() < 0.5 and name != "GM2CALCCONFIG":
+            uk = rnd.choice([77, 9999, 123456, 0, 0, rnd.randrange(0, 100), rnd.randrange(0, 100)])
+            if name == "MINPAR" and uk == 24:
+                uk = 77   # (the Yukawa type is validated at every assignment, also an overwritten one)
+            extra.append("   %d   %s   # unknown key" % (uk, "%.17g" % rnd.uniform(-10, 10)))
         if ismat and rnd.random() < 0.3:
-            lines.append("   9  9   1.5   # index outside the matrix")
+            extra.append(rnd.choice(["   9  9   1.5   # index outside the matrix", "   0  0   1.5   # index outside the matrix", "   4  1   1.5   # index outside the matrix"]))
         for d in data:
             body = d.split("#")[0]
             t = body.split()
@@ -109,6 +114,8 @@ def rewrite(text, fmt, rnd):
             lines.append(ind + sep.join(t) + rnd.choice(["", "   # c", " #", "\t# 1 2 3"]))
             if rnd.random() < 0.15:
                 lines.append(rnd.choice(["", "# a comment line", "   ", "#"]))
+        for e in extra:
+            lines.insert(rnd.randrange(1, len(lines) + 1), e)
         out.append(lines)
     # foreign blocks
     for _ in range(rnd.randrange(3)):
@@ -156,6 +163,12 @@ def reduce_text(text, rnd):
             if len(b) > 1:
                 del b[rnd.randrange(1, len(b))]
     return "\n".join("\n".join(b) for b in blocks) + "\n"
+
+
+def same_prediction(a, b):
+    if a is None or b is None:
+        return a is b
+    return set(a) == set(b) and all((a[k] == b[k]) or (isinstance(a[k], float) and isinstance(b[k], float) and math.isnan(a[k]) and math.isnan(b[k])) for k in a)
 
 
 def equal_pred(name, got, exp):
@@ -206,7 +219,17 @@ def run(chk):
         defaults = cli.api_dump(dump, fmt, blank, params=True)["P"]
         jobs = []
         for idx, text in enumerate(texts):
-            variants = [("original", text)] + [("rewrite", rewrite(text, fmt, rnd)) for _ in range(nrew)] + [("reduced", reduce_text(text, rnd)) for _ in range(3)]
+            p0 = predictors[fmt](text, defaults)
+            rws = []
+            for _ in range(nrew):
+                for attempt in range(8):
+                    rw = rewrite(text, fmt, rnd)
+                    if same_prediction(predictors[fmt](rw, defaults), p0):   # the inserted keys are undocumented for their block and format
+                        rws.append(("rewrite", rw))
+                        break
+                else:
+                    chk.add_count("rewrite discarded (an inserted key is documented)")
+            variants = [("original", text)] + rws + [("reduced", reduce_text(text, rnd)) for _ in range(3)]
             jobs.append((idx, text, variants))
 
         def do_file(job):
